@@ -424,3 +424,79 @@ func combExports(violate func(key, msg string, replay map[string]any)) int {
 	}
 	return cases
 }
+
+// scriptedRollbacks (C13): rollback targets taken at different moments. Checkpoint A; changes; commit; Rollback()
+// (back at A); a snapshot of A taken right then (CopyRoot at several levels, or the root node itself); further
+// changes, commit, a SECOND checkpoint B, changes, commit; RollbackTrie(snapshot of A): the trie is at A again -
+// root, weight, every block - and A is resolvable from storage. (The BFS worlds use one checkpoint per history.)
+func scriptedRollbacks(rep *rt.Report) {
+	for _, nkeys := range []int{1, 3, 8} {
+		for _, level := range []int{0, 1, 3, 64} {
+			for _, src := range []string{"CopyRoot", "GetRoot"} {
+				for _, clevel := range []int{0, 1} {
+					rep.Add("states", 1)
+					rep.Add("transitions", 1)
+					rep.Add("traces_validated_against_impl", 1)
+					rep.Add("evaluations", 1)
+					desc := fmt.Sprintf("[scripted-rollback] %d keys, commits at level %d: checkpoint A, commit, Rollback(), snapshot by %s(%d), commit, checkpoint B, commit, RollbackTrie(snapshot)", nkeys, clevel, src, level)
+					fail := func(f string) {
+						rep.Violate(desc+": "+f, map[string]any{"run": "scripted-rollback", "keys": nkeys, "level": level, "source": src, "commit_level": clevel})
+					}
+					func() {
+						defer func() {
+							if r := recover(); r != nil {
+								fail(fmt.Sprintf("panic: %v", r))
+							}
+						}()
+						x := newScaleTrie()
+						for i := 0; i < nkeys; i++ {
+							_ = x.put(scaleKey(i), fmt.Sprintf("A-%d", i), uint64(1+i%3))
+						}
+						if err := x.commit(clevel); err != nil {
+							fail(err.Error())
+							return
+						}
+						modelA := x.m.Clone()
+						x.t.SaveRoot() // checkpoint A
+						_ = x.put(scaleKey(0), "changed-1", 5)
+						_ = x.put(scaleKey(100), "new-1", 2)
+						if err := x.commit(clevel); err != nil {
+							fail(err.Error())
+							return
+						}
+						x.t.Rollback()
+						x.m = modelA.Clone()
+						if f := x.observe(x.t, 100); f != "" {
+							fail("after Rollback(): " + f)
+							return
+						}
+						var snap wmpt.Node
+						if src == "CopyRoot" {
+							snap = x.t.CopyRoot(level)
+						} else {
+							snap = x.t.GetRoot()
+						}
+						_ = x.put(scaleKey(0), "changed-2", 4)
+						_ = x.put(scaleKey(101), "new-2", 3)
+						if err := x.commit(clevel); err != nil {
+							fail(err.Error())
+							return
+						}
+						x.t.SaveRoot() // checkpoint B
+						_ = x.put(scaleKey(102), "new-3", 1)
+						if err := x.commit(clevel); err != nil {
+							fail(err.Error())
+							return
+						}
+						x.t.RollbackTrie(snap)
+						x.m = modelA.Clone()
+						if f := x.observe(x.t, 100); f != "" {
+							fail("after RollbackTrie(snapshot of A) the live trie: " + f)
+							return
+						}
+					}()
+				}
+			}
+		}
+	}
+}
